@@ -9,6 +9,7 @@ import (
 	"flag"
 	"fmt"
 	"os"
+	"sort"
 	"strings"
 	"sync"
 
@@ -80,6 +81,18 @@ type proofRec struct {
 	Panic   string   `json:"panic,omitempty"`
 }
 
+// pendingPath holds the input of the case being run: a panic inside a goroutine spawned by the code under test cannot be
+// recovered and kills the process; the orchestration then reports this input as the concrete failing case.
+var pendingPath string
+
+func pending(v interface{}) {
+	if pendingPath == "" {
+		return
+	}
+	b, _ := json.Marshal(v)
+	_ = os.WriteFile(pendingPath, b, 0o644)
+}
+
 func hx2(b []byte) string { return hex.EncodeToString(b) }
 func unhex(s string) []byte {
 	b, err := hex.DecodeString(s)
@@ -131,6 +144,16 @@ func (g *keygen) fresh() []byte {
 				k[b/8] ^= 0x80 >> uint(b%8)
 			}
 		}
+	case "prefix": // share the first 1..3 bytes with the base (lower sub-trees), random afterwards; the byte after the prefix takes few values
+		copy(k, g.r.Bytes(g.kl))
+		p := 1 + g.r.Intn(3)
+		if p >= g.kl {
+			p = g.kl - 1
+		}
+		copy(k[:p], g.base[:p])
+		if p < g.kl && g.r.Intn(2) == 0 {
+			k[p] = []byte{0x00, 0x40, 0x80, 0xc0, 0xff, 0x01}[g.r.Intn(6)]
+		}
 	case "crossing": // share the prefix up to a random bit, then diverge: leaves at every depth, several 8-bit sub-trees deep
 		copy(k, g.base)
 		p := g.r.Intn(g.kl * 8)
@@ -158,25 +181,92 @@ func value(r *hx.Rng) []byte { return crypto.Hash(r.Bytes(4)) }
 
 func genHistory(r *hx.Rng, g *keygen, nb, maxOps int) [][]wop {
 	bs := make([][]wop, nb)
+	cur := map[string]string{} // the map so far (first occurrence inside a batch wins)
+	keysOf := func() []string {
+		ks := make([]string, 0, len(cur))
+		for k := range cur {
+			ks = append(ks, k)
+		}
+		sort.Strings(ks)
+		return ks
+	}
+	noop := func() (wop, bool) {
+		ks := keysOf()
+		if len(ks) == 0 {
+			return wop{}, false
+		}
+		k := ks[r.Intn(len(ks))]
+		if r.Bool() {
+			return wop{k, cur[k]}, true // rewrite the stored value
+		}
+		// delete an absent key sharing a long prefix (at least the first byte when the key is longer) with a stored one
+		lo := 8 * boolInt(g.kl > 1) // keep the first byte: the key lands in the same lower sub-tree
+		pos := lo + r.Intn(g.kl*8-lo)
+		if r.Bool() { // long shared prefix
+			w := g.kl*8 - lo
+			if w > 12 {
+				w = 12
+			}
+			pos = g.kl*8 - 1 - r.Intn(w)
+		}
+		a := flipBit(unhex(k), pos)
+		if _, present := cur[hx2(a)]; present {
+			return wop{k, cur[k]}, true
+		}
+		return wop{hx2(a), ""}, true
+	}
 	for i := range bs {
 		n := r.Intn(maxOps + 1)
 		b := []wop{}
+		if i > 0 && r.Intn(4) == 0 {
+			// a batch made only of operations that leave the map (and every sub-tree) unchanged
+			for j := 0; j < 1+r.Intn(2); j++ {
+				if o, ok := noop(); ok {
+					b = append(b, o)
+				}
+			}
+			n = 0
+		}
 		for j := 0; j < n; j++ {
 			k := g.key(nil)
 			v := value(r)
-			switch r.Intn(6) {
+			switch r.Intn(8) {
 			case 0: // delete
 				v = []byte{}
 			case 1: // duplicate inside the batch with another value
 				if len(b) > 0 {
 					k = unhex(b[r.Intn(len(b))][0])
 				}
+			case 2: // no-op operation mixed into the batch
+				if o, ok := noop(); ok {
+					b = append(b, o)
+					continue
+				}
 			}
 			b = append(b, wop{hx2(k), hx2(v)})
+		}
+		seen := map[string]bool{}
+		for _, o := range b {
+			if seen[o[0]] {
+				continue
+			}
+			seen[o[0]] = true
+			if o[1] == "" {
+				delete(cur, o[0])
+			} else {
+				cur[o[0]] = o[1]
+			}
 		}
 		bs[i] = b
 	}
 	return bs
+}
+
+func boolInt(b bool) int {
+	if b {
+		return 1
+	}
+	return 0
 }
 
 func split(b []wop) (ks, vs [][]byte) {
@@ -194,6 +284,7 @@ type trieT interface {
 
 func runRoot(kl int, gen string, batches [][]wop, reopen []bool, sh int) rootRec {
 	rec := rootRec{K: "root", KL: kl, Gen: gen, Batches: batches, Reopen: reopen, Roots: []string{}, SH: sh}
+	pending(rec)
 	db := newMem()
 	t := smt.NewTrie(nil, kl)
 	if sh != 0 {
@@ -329,6 +420,7 @@ func flipBit(b []byte, i int) []byte {
 
 func runProof(r *hx.Rng, kl int, gen string, batches [][]wop, keys [][]byte, tamper bool) proofRec {
 	rec := proofRec{K: "proof", KL: kl, Gen: gen, Batches: batches, Keys: hexs(keys), Sibs: []string{}, Qs: []wq{}, Obs: []vobs{}}
+	pending(rec)
 	db := newMem()
 	t := smt.NewTrie(nil, kl)
 	var root []byte
@@ -565,11 +657,13 @@ func main() {
 	r := hx.NewRng(hx.SeedFromEnv())
 	o := hx.NewOut(*out)
 	defer o.Close()
+	pendingPath = *out + ".pending"
+	defer os.Remove(pendingPath)
 	if *in != "" {
 		replay(o, *in, r)
 		return
 	}
-	modes := []string{"random", "clustered", "crossing"}
+	modes := []string{"random", "clustered", "crossing", "prefix", "prefix"}
 	kls := []int{32, 32, 32, 1, 2, 4}
 	// empty trie, empty batch
 	o.Put(runRoot(32, "empty", [][]wop{{}}, []bool{false}, 0))
